@@ -4,11 +4,12 @@
 -/
 import Driver.Ops
 import Driver.OpsCompare
+import Driver.OpsGridFS
 open Lean
 namespace Driver
 
 def allOps : List (String × Op) :=
-  opsCompare
+  opsCompare ++ opsGridFS
 
 def handle (line : String) : Json :=
   match Json.parse line with
